@@ -76,7 +76,7 @@ def check(case):
 
     def fit_batch(rows, first):
         kw = {}
-        if first and case.get("pass_classes") and ycol["type"] != "cont":
+        if (first or case.get("classes_every_call")) and case.get("pass_classes") and ycol["type"] != "cont":
             kw["classes"] = np.asarray(sorted(AC.LABELS[ycol["enc"]]))
         est.partial_fit(
             X[rows],
@@ -290,6 +290,7 @@ def _cases(draw):
         "random_state": draw(st.integers(0, 1000)),
         "container": draw(st.sampled_from(["ndarray", "ndarray", "list", "series"])),
         "pass_classes": draw(st.booleans()),
+        "classes_every_call": draw(st.booleans()),  # the scikit-learn loop idiom: partial_fit(..., classes=...) in every call
         "saturate": saturate,
     }
 
